@@ -7,11 +7,13 @@ From HV Require Export lib.Harness model.Render spec.RenderS.
    (None = render raised), and whether the HUGR was left unchanged by rendering *)
 Inductive case := CRender (h : hview) (rs : list (config * option dot)) (unchanged : bool).
 
+(* the drawing equals the model's up to the order of the edge statements and of the sibling statements inside a
+   cluster (the property promises one statement per node/link and the nesting, not these orders) *)
 Definition corr (c : case) : bool :=
   match c with
   | CRender h rs _ =>
       forallb (fun cd => match snd cd with
-                         | Some d => dot_eqb d (render (fst cd) (hv_tree h) (hv_links h))
+                         | Some d => dot_peqb d (render (fst cd) (hv_tree h) (hv_links h))
                          | None => false
                          end) rs
   end.
